@@ -174,5 +174,6 @@ Definition quantize_holds (im : img) (k : N) (dither : bool)
   forall2b (fun (_ : rgb) i => i <? np) im q &&
   (dither ||
    forall2b (fun c i => is_nearestb pal c i (nth (N.to_nat i) pal (0, 0, 0))) im q) &&
-  (negb ((distinct_colors im <=? k) && (sample_of im k <? 2)) ||
-   forall2b (fun c i => rgb_eqb (nth (N.to_nat i) pal (256, 256, 256)) c) im q).
+  (* (`if`, not `&&`: the count of distinct colours is only computed for images that are not subsampled) *)
+  (if (if sample_of im k <? 2 then distinct_colors im <=? k else false)
+   then forall2b (fun c i => rgb_eqb (nth (N.to_nat i) pal (256, 256, 256)) c) im q else true).
